@@ -1264,6 +1264,7 @@ pub const BUGS: &[&str] = &[
     "tilemap-bomb-with-links",
     "deep-nesting-closed",
     "tileset-bomb",
+    "indexed-bomb-missing-index",
 ];
 
 fn ensure_tilemap(s: &mut SpriteSpec, r: &mut Rng) -> usize {
@@ -2487,6 +2488,52 @@ pub fn apply_bug(s: &mut SpriteSpec, bug: &str, r: &mut Rng, scale: usize) -> St
         "color-profile-icc" => {
             s.color_profile = Some(*r.pick(&[2u16, 2, 3, 0xFFFF]));
             "colour profile of ICC / unknown type (ICC payload applied on bytes)".into()
+        }
+        "indexed-bomb-missing-index" => {
+            // an indexed image of `scale` Mi pixels, truthfully declared, every pixel an index the
+            // palette does not have: rejected on the first pixel by a loader that checks as it goes;
+            // anything that first collects per-pixel diagnostics pays per pixel
+            s.fmt = Fmt::Indexed;
+            s.legacy = None;
+            s.sprite_ud = None;
+            s.tilesets.clear();
+            for l in &mut s.layers {
+                if l.kind == 2 {
+                    l.kind = 0;
+                }
+            }
+            s.cels.clear();
+            s.palette = Some(PaletteSpec {
+                first: 0,
+                entries: (0..8).map(|i| ([i * 30, 1, 2, 255], None)).collect(),
+            });
+            let li = match s.layers.iter().position(|l| l.kind == 0) {
+                Some(i) => i,
+                None => {
+                    s.layers[0].kind = 0;
+                    0
+                }
+            } as u16;
+            let px = scale.max(1) << 20;
+            let w = 4096u16;
+            let h = (px / 4096).clamp(1, 65535) as u16;
+            s.cels.push(CelSpec {
+                frame: 0,
+                layer: li,
+                x: 0,
+                y: 0,
+                opacity: 255,
+                body: CelBody::Raw {
+                    w,
+                    h,
+                    pixels: vec![200u8; w as usize * h as usize],
+                    compressed: true,
+                    level: 9,
+                },
+                ud: None,
+                extra: false,
+            });
+            format!("{}x{} indexed cel of index 200 with an 8-entry palette", w, h)
         }
         "tileset-bomb" => {
             // millions of tiny tiles, truthfully declared, compressing to a few KB: anything kept
